@@ -54,6 +54,19 @@ Proof.
   intros v Hv pre3 j v' Hd Hp. rewrite (C07_json_leg v Hv pre3 j Hd) in Hp. inversion Hp; subst v'. exact Hd.
 Qed.
 
+(* JSON leg for whole trees: lists and dicts (distinct keys, not grid-like) to any depth over strings, URIs, Bins,
+   markers, nulls, booleans, NA, Remove - reader after writer is the identity, hence re-dumping what was read
+   reproduces the text *)
+Theorem C07_json_leg_nested : forall n v fuel j, plain n v -> jdump fuel false v = Ok j -> jparse fuel false j = Ok v.
+Proof. intros n v fuel j. exact (plain_roundtrip n v fuel j). Qed.
+Theorem C07_json_normalisation_idempotent_nested : forall n v fuel j v',
+  plain n v -> jdump fuel false v = Ok j -> jparse fuel false j = Ok v' -> jdump fuel false v' = Ok j.
+Proof.
+  intros n v fuel j v' Hp Hd Hr. rewrite (plain_roundtrip n v fuel j Hp Hd) in Hr. inversion Hr; subst v'. exact Hd.
+Qed.
+
+Print Assumptions C07_json_leg_nested.
+Print Assumptions C07_json_normalisation_idempotent_nested.
 Print Assumptions C07_zinc_leg.
 Print Assumptions C07_json_leg.
 Print Assumptions C07_text_always_dumps.
